@@ -275,7 +275,13 @@ func visitInstr(fr *frame, instr ssa.Instruction) continuation {
 		fr.i.p.chanOp([]chanCase{{ch: ch, send: true, val: fr.get(instr.X)}}, false, "send"+fr.i.where())
 
 	case *ssa.Store:
-		store(mustDeref(instr.Addr.Type()), fr.get(instr.Addr).(*value), fr.get(instr.Val))
+		addr := fr.get(instr.Addr)
+		if sp, ok := addr.(symPtr); ok {
+			// writes need a concrete cell: fork on the index
+			k := fr.i.p.concretize(sp.idx, "store-index")
+			addr = &sp.base[k]
+		}
+		store(mustDeref(instr.Addr.Type()), addr.(*value), fr.get(instr.Val))
 
 	case *ssa.If:
 		succ := 1
@@ -356,6 +362,12 @@ func visitInstr(fr *frame, instr ssa.Instruction) continuation {
 
 	case *ssa.IndexAddr:
 		x := fr.get(instr.X)
+		if si, ok := fr.get(instr.Index).(symInt); ok {
+			if sp, ok := fr.i.p.trySymPtr(x, si); ok {
+				fr.env[instr] = sp
+				break
+			}
+		}
 		idx := fr.i.concInt(fr.get(instr.Index), "index")
 		switch x := x.(type) {
 		case []value:
@@ -382,6 +394,12 @@ func visitInstr(fr *frame, instr ssa.Instruction) continuation {
 
 		switch x := x.(type) {
 		case array:
+			if si, ok := idx.(symInt); ok {
+				if sp, ok := fr.i.p.trySymPtr([]value(x), si); ok {
+					fr.env[instr] = fr.i.p.loadSymPtr(sp)
+					break
+				}
+			}
 			k := fr.i.concInt(idx, "index")
 			if k < 0 || k >= int64(len(x)) {
 				panic(targetPanic{"runtime error: index out of range"})
